@@ -64,9 +64,10 @@ Proof. exact parse_accepts_nonminimal. Qed.
 
 
 (* ---------- foreign input normalises once (Model/FmtStrict.v, Proofs/Fmt_lemmas2.v) ---------- *)
-(* dec_strict2 is the tolerant decoder `dec` with two more refusals: a multiprecision integer must be present in full and have a value
-   the encoder can write (bit length below 65536), and a body length is not a partial one.  What it accepts, `dec` accepts with the
-   same result (so the tie of `dec` to the implementation covers it) ... *)
+(* dec_strict2 is the tolerant decoder `dec` with these further refusals: a multiprecision integer must be present in full and have
+   a value the encoder can write (bit length below 65536), and the first octet of a length is not 224..254 (for a packet body
+   that is a partial length; for a subpacket it is the two-octet form of a length 8384..16319, which the encoder writes with five
+   octets).  What it accepts, `dec` accepts with the same result (so the tie of `dec` to the implementation covers it) ... *)
 Theorem C08_strict_is_a_restriction_of_tolerant : forall f i x, dec_strict2_full f i = Some x -> dec_full f i = Some x.
 Proof. intros f i x H. apply dec_strict_full_dec_full, dec_strict2_full_dec_strict_full, H. Qed.
 Print Assumptions C08_strict_is_a_restriction_of_tolerant.
@@ -79,7 +80,8 @@ Print Assumptions C08_strict_accepts_own_output.
 (* ... and whatever other encoding of a packet it accepts (five-octet or non-minimal lengths, integers whose bit count covers leading
    zero bits or octets, any value of any field) re-serialises to a DEFINED packet, not longer than what was read, that parses back to
    the same field values with the following data untouched and is a fixed point of a further parse / serialise pass.
-   `_partial`: partial body lengths and integers with missing octets are outside the hypothesis (next theorem). *)
+   `_partial`: partial body lengths, two-octet subpacket lengths of 8384 and more, and integers with missing octets or 65536
+   significant bits are outside the hypothesis (next theorem). *)
 Theorem C08_foreign_normalises_once_partial : forall f i v r,
   In f all_formats -> wf_bytes i -> dec_strict2_full f i = Some (v, r) ->
   exists b, enc f v = Some b /\ (length b + length r <= length i)%nat /\
@@ -88,12 +90,16 @@ Theorem C08_foreign_normalises_once_partial : forall f i v r,
 Proof. exact foreign_normalises_once_partial. Qed.
 Print Assumptions C08_foreign_normalises_once_partial.
 
-(* without the two refusals the statement is false of the model: (1) a user id packet written with partial lengths re-encodes LONGER
-   (8388 -> 8390 octets: harmless, C08 does not ask for shortness); (2) inside a two-octet-counted region the longer re-encoding can
-   exceed the count (a model artefact: Model/Packets.v reads subpacket length octets 224..254 with the packet rule, the code and
-   Model/Wire.v sub_len read them as two-octet lengths); (3) an integer declaring 65529..65535 bits whose top value bit is set has
-   bit length 65536, which no two-octet bit count can express - such an integer is not well-formed (RFC 4880 3.2: the value does not
-   fit the declared count), the implementation accepts it and cannot write it back (OverflowError), the model encoder says None. *)
+(* without the refusals the statement is false of the model, and of the implementation: (1) a user id packet written with partial
+   lengths re-encodes LONGER (8388 -> 8390 octets), and so does, without any partial length, a subpacket of 8384..16319 octets
+   written with the two-octet length RFC 4880 5.2.3.1 allows (first octet 224..254): the encoder uses the packet rule and spends
+   five octets (Fmt_lemmas2.foreign_subpacket_longer: 16327 -> 16330; harmless as such, C08 does not ask for shortness); (2) inside
+   a two-octet-counted subpacket area that growth can exceed the count: an area of 65535 octets holding four subpackets of 16319
+   octets re-encodes to 65547 octets of content and the model encoder says None (subpacket lengths are read with the subpacket
+   rule, Fmt.FSubLen = Wire.sub_len, so this is not a model artefact: the area is well-formed by the RFC); (3) an integer declaring
+   65529..65535 bits whose top value bit is set has bit length 65536, which no two-octet bit count can express - such an integer is
+   not well-formed (RFC 4880 3.2: the value does not fit the declared count), the implementation accepts it and cannot write it
+   back (OverflowError), the model encoder says None. *)
 Theorem C08_foreign_normalises_once_refuted :
   (exists f i v r b, In f all_formats /\ wf_bytes i /\ dec_strict_full f i = Some (v, r) /\
      enc f v = Some b /\ (length i < length b + length r)%nat) /\
